@@ -85,6 +85,11 @@ def fmtRead (r : Data × Option RErr) : String :=
   f.fetchold …                     -> the same with the unrepaired exchangeKeys (replays of F8 only)
   f.store <hex>                    -> ok pool=<chunks>
   f.state                          -> ok <data> keys=..
+  x.fetch tr=tls|quic host=<hex> stream=<chunks> gaps=[ms,..]
+                                   -> ok <data> keys=agree | err <class>
+      one exchange of a fresh fetcher with the response delivered chunk by chunk, the peer
+      staying silent gaps[i] ms before chunk i. The model's transport has no clock: the
+      answer is that of the chunks (C14Ntske_readData_segmentation: that of their concatenation).
 -/
 def stepD (st : Data) (idx : Nat) (toks : List String) : Data × String :=
   match toks with
@@ -129,6 +134,20 @@ def stepD (st : Data) (idx : Nat) (toks : List String) : Data × String :=
     match parseHex? h with
     | some c => let st := storeCookie st c; (st, s!"ok pool={fmtHexList st.cookies}")
     | none => (st, "bad-op")
+  | "x.fetch" :: rest =>
+    match kv? rest "tr", (kv? rest "host").bind parseHex?, (kv? rest "stream").bind parseHexList?,
+          (kv? rest "gaps").bind parseIntList? with
+    | some tr, some host, some stream, some gaps =>
+      if rest.length ≠ 4 ∨ (tr ≠ "tls" ∧ tr ≠ "quic") ∨ gaps.length ≠ stream.length ∨
+         gaps.any (fun g => g < 0 ∨ g > 60000) then (st, "bad-op") else
+      let e : Exchange := { quic := tr = "quic", dialOk := true, host := host, alpn := alpnProto, stream := stream,
+                            c2s := symC2S 0, s2c := symS2C 0 }
+      match (fetchData {} e).out with
+      | .ok d =>
+        let agree := if fmtKeys d = "keys=ex0" then "keys=agree" else "keys=differ"
+        (st, s!"ok {fmtData d} {agree}")
+      | .error err => (st, s!"err {fmtExErr err}")
+    | _, _, _, _ => (st, "bad-op")
   | op :: rest =>
     if op = "f.fetch" ∨ op = "f.fetchold" then
       match (kv? rest "dial").bind parseBool?, (kv? rest "alpn").bind parseHex?,
